@@ -201,11 +201,20 @@ def assembly(ctx):
     cfg = CFG(f)
     inf = calls_to(f, "AstResolver::inferred_instantiation_arg") + calls_to(f, "AstResolver::named_instantiation_arg")
     spr = calls_to(f, "AstResolver::spread_instantiation_arg")
-    ctx.ob("R04.3", "anchor", len(inf) == 2 and len(spr) == 1, "inferred/named and spread call sites: %d/%d" % (len(inf), len(spr)), nontrivial=False)
-    if inf and spr:
+    # the spread pass may be written with iterator adaptors (`.filter_map(..).try_for_each(|id| self.spread_..(..))`):
+    # then the call sits in a closure and its position in new_expr is the adaptor call the closure is handed to
+    spr_pos = [(t.bb, True) for t in spr]
+    for g in db.with_closures(f)[1:]:
+        if calls_to(g, "AstResolver::spread_instantiation_arg"):
+            for c in f.calls():
+                if any(strip_generics(fa) == g.id for fa in c.fnargs) and (c.path or "").rsplit("::", 1)[-1] in ("try_for_each", "for_each", "try_fold", "fold", "map", "filter_map"):
+                    spr_pos.append((c.bb, False))
+    ctx.ob("R04.3", "anchor", len(inf) == 2 and len(spr_pos) == 1, "inferred/named and spread call sites: %d/%d" % (len(inf), len(spr_pos)), nontrivial=False)
+    if inf and spr_pos:
         h1 = [loop_header_of(cfg, t.bb) for t in inf]
-        h2 = loop_header_of(cfg, spr[0].bb)
-        ok = all(h is not None for h in h1) and h2 is not None and all(cfg.dominates(h, h2) and h != h2 for h in h1)
+        pb, is_loop = spr_pos[0]
+        h2 = loop_header_of(cfg, pb) if is_loop else pb
+        ok = all(h is not None for h in h1) and h2 is not None and all(cfg.dominates(h, h2) and h != h2 and not cfg.reaches(h2, h) for h in h1)
         ctx.ob("R04.3", "spread-after-named", ok, "spread arguments are processed in a second loop, after all inferred and named arguments" if ok else
                "spreads are not processed after the loop over inferred/named arguments", site=f.span)
     # fill: error unless last; the only writer of require_all
